@@ -42,6 +42,7 @@ RULE += (' Also: a subclass overriding the cached property and awaiting super().
 RULE += (' Also: getters failing with a BaseException that is no Exception.')
 RULE += (' Also: host classes with customised attribute reads (__getattribute__ handing out stand-ins).')
 RULE += (' Also: hosts inheriting from a base that declares __slots__ = () (abc.ABC, Generic) while having a __dict__ of their own.')
+RULE += (' Also: under a real asyncio loop one pending placeholder handed to several tasks (ensure_future / gather / await), one of them cancelled.')
 ASSUMPTIONS = ["awaiting a handle taken while a value was cached returns that value (unspecified after del; accepted)",
                "the getter's own suspensions are the only scheduling points besides lock waits"]
 EXHAUSTIVE_SUBSPACES = 'all operation sequences of length <= 5 (thorough: 6) over 7 operations; DFS-complete schedule sets for the scenarios counted in scenarios_explored_exhaustively'
@@ -60,6 +61,11 @@ def cases(tier, seed, shard, nshards):
             for child_lock in (False, True):
                 for susp in (0, 1):
                     yield {"kind": "override", "base_lock": base_lock, "child_lock": child_lock, "susp": susp}
+    if shard == 0:
+        for lock in (False, True):
+            for cancel in ("none", "first", "second", "third"):
+                for how in ("ensure_future", "gather", "plain_await"):
+                    yield {"kind": "asyncio_tasks", "lock": lock, "cancel": cancel, "how": how}
     maxlen = 5 if tier == "quick" else 6
     for n in range(1, maxlen + 1):
         for ops in itertools.product(SEQ_OPS, repeat=n):
@@ -569,7 +575,87 @@ def run_override(case, stats):
             "sample": dict(case)}
 
 
+def run_asyncio_tasks(case, stats):
+    """Under a real asyncio loop: ONE placeholder (``p = host.data``, not yet computed) is handed to several tasks the way
+    asyncio users do it - ``ensure_future(p)`` / ``gather(p, p, p)`` / ``await p`` inside tasks - and one of the tasks is
+    cancelled while the getter waits.  The placeholder is an awaitable like any other: every task that was not cancelled
+    receives the value; a cancelled task takes nobody else down with it."""
+    import asyncio
+
+    runs = []
+
+    async def main():
+        loop = asyncio.get_running_loop()
+        gates = []
+
+        async def getter(self):
+            runs.append(len(runs) + 1)
+            gate = loop.create_future()  # (a gate of its own per run: a task's cancellation cancels what IT waits for)
+            gates.append(gate)
+            await gate
+            return ("value", 42)
+
+        prop = A.cached_property(asyncio.Lock)(getter) if case["lock"] else A.cached_property(getter)
+        Host = type("Host", (), {"data": prop})
+        prop.__set_name__(Host, "data")
+        host = Host()
+        p = host.data
+
+        async def plain(aw):
+            return await aw
+
+        if case["how"] == "plain_await":
+            tasks = [asyncio.ensure_future(plain(p)) for _ in range(3)]
+        else:
+            tasks = [asyncio.ensure_future(p) for _ in range(3)]
+        for _ in range(3):
+            await asyncio.sleep(0)
+        victim = {"none": None, "first": 0, "second": 1, "third": 2}[case["cancel"]]
+        if victim is not None:
+            tasks[victim].cancel()
+        for _ in range(40):
+            await asyncio.sleep(0)
+            for gate in gates:
+                if not gate.done():
+                    gate.set_result(None)
+            if all(t.done() for t in tasks):
+                break
+        if case["how"] == "gather":
+            results = await asyncio.gather(*tasks, return_exceptions=True)
+        else:
+            results = []
+            for t in tasks:
+                try:
+                    results.append(await t)
+                except BaseException as exc:  # noqa: BLE001
+                    results.append(exc)
+        later = await host.data
+        return victim, results, later
+
+    viols = []
+    try:
+        victim, results, later = asyncio.run(asyncio.wait_for(main(), 20))
+        shown = [r if not isinstance(r, BaseException) else type(r).__name__ for r in results]
+        for i, r in enumerate(results):
+            if i == victim:
+                if not isinstance(r, asyncio.CancelledError):
+                    viols.append({"key": "cached_property/asyncio-task-results", "msg": f"{case}: the cancelled task {i} ended with {shown[i]!r}"})
+            elif r != ("value", 42):
+                viols.append({"key": "cached_property/asyncio-task-results",
+                              "msg": f"{case}: task {i} (not cancelled) ended with {shown[i]!r}; all tasks: {shown}; getter runs: {len(runs)}"})
+        if later != ("value", 42):
+            viols.append({"key": "cached_property/asyncio-task-results", "msg": f"{case}: a later access gave {later!r}"})
+        if case["lock"] and victim is None and len(runs) != 1:
+            viols.append({"key": "cached_property/asyncio-task-results", "msg": f"{case}: with a lock and no cancellation the getter ran {len(runs)} times"})
+    except BaseException as exc:  # noqa: BLE001
+        viols.append({"key": "cached_property/asyncio-task-results", "msg": f"{case}: the scenario ended with {type(exc).__name__}: {exc}"})
+    stats["asyncio_task_scenarios"] += 1
+    return {"violations": viols[:1], "nontrivial": True, "sig": ("asyncio_tasks", str(case))}
+
+
 def run_case(case, stats: Counter):
+    if case["kind"] == "asyncio_tasks":
+        return run_asyncio_tasks(case, stats)
     if case["kind"] == "override":
         return run_override(case, stats)
     if case["kind"] == "seq":
